@@ -86,7 +86,7 @@ func scenarios(run *report.Run) []scen {
 	}
 	// a missed or misdirected wake-up costs up to one idle timeout: with a long idle timeout it becomes
 	// visible as lateness. Short patterns (no idle gap, which would take 12 s) in every tier.
-	for _, p := range [][]string{{"burst", "near"}, {"far", "burst", "near"}, {"burst", "cancelhead", "near"}, {"burst", "near", "burst", "near"}} {
+	for _, p := range [][]string{{"burst", "near"}, {"far", "burst", "near"}, {"burst", "cancelhead", "near"}, {"burst", "near", "burst", "near"}, {"burst", "pause", "mid", "near"}, {"mid", "burst", "pause", "near", "near"}} {
 		for _, callers := range []int{1, 4} {
 			for _, mw := range []int{2, 10} {
 				res = append(res, scen{Order: p, Callers: callers, Idle: 3 * time.Second, MaxWorkers: mw, PauseBeforeNear: 300 * time.Millisecond})
@@ -535,7 +535,7 @@ func runScenario(sc scen) (fs []tmon.Finding, nFut int, stats map[string]int64, 
 		var wg sync.WaitGroup
 		for c := 0; c < sc.Callers; c++ {
 			wg.Add(1)
-			go func() {
+			go func(c int) {
 				defer wg.Done()
 				switch el {
 				case "far":
@@ -543,6 +543,14 @@ func runScenario(sc scen) (fs []tmon.Finding, nFut int, stats map[string]int64, 
 						mon.Call(30*time.Second, 0, true)
 					} else {
 						mon.Call(time.Duration(math.MaxInt64)-time.Duration(sc.MaxWorkers), 0, true) // "never"
+					}
+				case "pause":
+					time.Sleep(100 * time.Millisecond) // a burst has fired by now, its workers linger idle
+				case "mid":
+					// a deadline inside the idle timeout of the slow patterns: whoever sleeps towards it must not keep
+					// the pool from noticing an earlier one
+					if c == 0 {
+						mon.Call(2500*time.Millisecond, 0, false)
 					}
 				case "near":
 					mon.Call(20*time.Millisecond, 0, false)
@@ -564,7 +572,7 @@ func runScenario(sc scen) (fs []tmon.Finding, nFut int, stats map[string]int64, 
 				case "idlegap":
 					time.Sleep(sc.Idle*5/2 + 5*time.Millisecond)
 				}
-			}()
+			}(c)
 		}
 		wg.Wait()
 		if w, _ := timeout.VerifState(); int64(w) > maxWorkersSeen {
@@ -588,7 +596,13 @@ func runScenario(sc scen) (fs []tmon.Finding, nFut int, stats map[string]int64, 
 			time.Sleep(time.Millisecond)
 		}
 	}
-	waitStarted(lateBound + time.Second)
+	extra := time.Duration(0)
+	for _, el := range sc.Order {
+		if el == "mid" {
+			extra = 2500 * time.Millisecond
+		}
+	}
+	waitStarted(lateBound + time.Second + extra)
 	for _, f := range mon.Futures() {
 		if f.Far {
 			mon.Cancel(f)
@@ -735,7 +749,7 @@ func TestChild(t *testing.T) {
 func TestCheck(t *testing.T) {
 	run := report.New("C13", "exploration")
 	defer run.Finish(t)
-	run.Rule("arrival patterns: permutations of {far future (30 s, or 'never' = MaxInt64), near future 20 ms, burst of 50 futures (> pool), cancel the head of the queue, idle gap of 2.5 idle timeouts} (24 orders quick, all 120 thorough) x 1 or 4 concurrent callers x idle timeout 20 ms / 200 ms (/ 5 s thorough) x pool limit 1/2/10, callbacks return at once; between the elements futures that fired or were cancelled already are cancelled again (late / repeated cancels); extra patterns with seven long watchdogs of different deadlines, two of which are cancelled from the middle of the queue, mixed with near futures and bursts. Monitors: every non-cancelled future starts (drain detector on hook state; pending>0 with no worker is final), lateness <= 1.5 s, hook invariant pending>0 => workers>=1 sampled under the package lock, workers reach 0 within (limit+3) idle periods + 2 s and the goroutine census agrees, a Call after the wind-down fires again; contended wind-down rounds: a far future pending, a blocking burst grows the pool to its limit, four goroutines hammer the package lock while the surplus workers leave - one worker must stay. a third of the 10-worker scenarios and the chase trials (a Call issued the moment the previous callback is seen running, swept by 0-2 us, 3 s idle timeout) also run in children that never replace the package state built by the package's own init(). evaluations = futures; distinct = distinct scenario configurations")
+	run.Rule("arrival patterns: permutations of {far future (30 s, or 'never' = MaxInt64), near future 20 ms, burst of 50 futures (> pool), cancel the head of the queue, idle gap of 2.5 idle timeouts} (24 orders quick, all 120 thorough) x 1 or 4 concurrent callers x idle timeout 20 ms / 200 ms (/ 5 s thorough) x pool limit 1/2/10, callbacks return at once; between the elements futures that fired or were cancelled already are cancelled again (late / repeated cancels); extra patterns with seven long watchdogs of different deadlines, two of which are cancelled from the middle of the queue, mixed with near futures and bursts. Monitors: every non-cancelled future starts (drain detector on hook state; pending>0 with no worker is final), lateness <= 1.5 s, hook invariant pending>0 => workers>=1 sampled under the package lock, workers reach 0 within (limit+3) idle periods + 2 s and the goroutine census agrees, a Call after the wind-down fires again; contended wind-down rounds: a far future pending, a blocking burst grows the pool to its limit, four goroutines hammer the package lock while the surplus workers leave - one worker must stay. a third of the 10-worker scenarios and slow patterns with a deadline 2.5 s ahead (inside the 3 s idle timeout) pending when a near one arrives; the chase trials (a Call issued the moment the previous callback is seen running, swept by 0-2 us, 3 s idle timeout) also run in children that never replace the package state built by the package's own init(). evaluations = futures; distinct = distinct scenario configurations")
 	run.Assume("lateness and wind-down bounds are two orders of magnitude above the healthy values and guarded by a stall canary (repeat up to 3 times, then inconclusive)")
 
 	if p := os.Getenv("VERIF_REPLAY"); p != "" {
